@@ -45,6 +45,7 @@ type Contract struct {
 	AllowPanic bool // explicit panic() reachable is not an obligation
 	Sets       []GhostSet
 	Params     []string // optional parameter names (for externals whose export data lost names)
+	Witness    map[string]string // ensures label -> witness expression for its leading integer existential
 	Used       bool
 }
 
@@ -182,11 +183,11 @@ func (db *SpecDB) LoadSpecFile(file, pkgPath string) error {
 			}
 			db.UFs[d.Name] = d
 		case "ghost":
-			fs := strings.Fields(rest)
+			fs := strings.SplitN(rest, " ", 2)
 			if len(fs) != 2 {
 				return fmt.Errorf("%s:%d: bad ghost", file, ln)
 			}
-			db.Ghosts[fs[0]] = fs[1]
+			db.Ghosts[fs[0]] = strings.TrimSpace(fs[1])
 		case "const":
 			fs := strings.SplitN(rest, "=", 2)
 			db.Consts[strings.TrimSpace(fs[0])] = strings.TrimSpace(fs[1])
@@ -251,6 +252,16 @@ func (db *SpecDB) LoadSpecFile(file, pkgPath string) error {
 				return fmt.Errorf("%s:%d: bad sets", file, ln)
 			}
 			cur.Sets = append(cur.Sets, GhostSet{Var: strings.TrimSpace(fs[0]), Src: strings.TrimSpace(fs[1])})
+		case "witness":
+			l, r := parseLabel(rest)
+			fs := strings.SplitN(r, "=", 2)
+			if cur == nil || l == "" || len(fs) != 2 {
+				return fmt.Errorf("%s:%d: bad witness (want: witness [label] var = expr)", file, ln)
+			}
+			if cur.Witness == nil {
+				cur.Witness = map[string]string{}
+			}
+			cur.Witness[l] = strings.TrimSpace(fs[1])
 		case "pure":
 			cur.Pure = true
 			cur.ModNothing = true
